@@ -15,6 +15,9 @@ Kids(k) == IF k = 0 THEN Forest.roots ELSE Forest.nodes[k].kids
 VARIABLES node, clatest, cdirtyData, cdirtyIndex, bad, drift
 tvars == <<vars, node, clatest, cdirtyData, cdirtyIndex, bad, drift>>
 
+(* traces recorded from real analyses (harness/ldtrace.py) carry no projection of the loader's internals: only the contract is judged *)
+ContractOnly == "contract_only" \in DOMAIN Forest /\ Forest.contract_only
+
 Field(rec, i) == IF ToString(i) \in DOMAIN rec THEN rec[ToString(i)] ELSE None
 
 Verdict(e) ==
@@ -49,7 +52,9 @@ Step(k) ==
   /\ cdirtyIndex' = (IF e.op = "save" THEN TRUE ELSE IF e.op = "export_indexing" THEN cdirtyData ELSE cdirtyIndex)
   /\ bad' = v
   /\ (v # "" => PrintT("@@" \o ToJson([file |-> IOEnv.TRACE_FILE, node |-> k, clause |-> v])))
-  /\ IF v = "" /\ ~drift /\ ENABLED ImplStep(e)
+  /\ IF ContractOnly
+     THEN UNCHANGED vars /\ drift' = FALSE
+     ELSE IF v = "" /\ ~drift /\ ENABLED ImplStep(e)
      THEN /\ ImplStep(e)
           /\ drift' = ~ProjOK(e)
           /\ (drift' => PrintT("@@" \o ToJson([file |-> IOEnv.TRACE_FILE, node |-> k, clause |-> "model_drift"])))
